@@ -406,7 +406,7 @@ pub fn run(ctx: &Ctx) -> i32 {
         Finish {
             ctx,
             level: "exploration",
-            rule: "part histories: one port (1/3 of the cases a second idle port with a 2, 4 or 8 times shorter announce interval so that BMCA and announce periods differ), announce log interval -2..1, receipt timeout 2..4, horizon 16 announce intervals + 8 of silence; 1-3 masters (1/9 of the cases 9-10, beyond the record capacity) each with a per-interval arrival pattern (absent, once, duplicated, two with reordered ids, stale id; runs of presence/absence; single isolated Announce), first sequence id 0..999 or 65530..65535, stepsRemoved 0/1/3/254 or >= 255, foreign identity or the own clock identity, random arrival phase per interval, random BMCA phase; the announce receipt timer and all other timers are live (host timer model). After every BMCA an independent time-based reception record is consulted: necessary conditions always, the sufficient and expiry clauses for clean patterns (DESIGN.md C06). Non-trivial = a qualification and (a loss/change of parent or a sequence wrap); distinct by scenario. Part daemon: against the real statime daemon in real time (announce interval 125 ms, observation socket polled every 20 ms): a new, better master on the slave port's segment sends k Announces and falls silent - k = 1 never makes it the parent; k >= 6 makes it the parent within 4 intervals + 0.6 s of its second Announce and it is dropped within 6 intervals + 0.8 s of its last; a master with stepsRemoved >= 255 or with the daemon's own clock identity never becomes parent; first sequence ids around 65535 and 0x8000. Part long: one or two masters announcing in every interval (an occasional gap or duplicate every 500-4500 intervals) over 33000-80000 announce intervals - a complete sequence-number cycle 65535->0 plus half of the next - same oracle after every BMCA; non-trivial = qualified and wrap crossed.",
+            rule: "part histories: one port (1/3 of the cases a second idle port with a 2, 4 or 8 times shorter announce interval so that BMCA and announce periods differ), announce log interval -2..1, receipt timeout 2..4, horizon 16 announce intervals + 8 of silence; 1-3 masters (1/9 of the cases 9-10, beyond the record capacity) each with a per-interval arrival pattern (absent, once, duplicated, two with reordered ids, stale id; runs of presence/absence; single isolated Announce), first sequence id 0..999 or 65530..65535, stepsRemoved 0/1/3/254 or >= 255, foreign identity or the own clock identity, random arrival phase per interval, random BMCA phase; the announce receipt timer and all other timers are live (host timer model). After every BMCA an independent time-based reception record is consulted: necessary conditions always, the sufficient and expiry clauses for clean patterns (DESIGN.md C06). Non-trivial = a qualification and (a loss/change of parent or a sequence wrap); distinct by scenario. Part daemon: against the real statime daemon in real time (announce interval 125 ms, observation socket polled every 20 ms): a new, better master on the slave port's segment sends k Announces and falls silent - k = 1 never makes it the parent; k >= 6 makes it the parent within 4 intervals + 0.6 s of its second Announce and it is dropped within 6 intervals + one BMCA period + 0.1 s of its last (the in-process bound; measured 0.42-0.48 s); when the only master falls silent the daemon names itself parent within the same bound and a port that took over names the lost grandmaster in at most two more Announces; the other port announcing eight times slower in half of the daemons; a master with stepsRemoved >= 255 or with the daemon's own clock identity never becomes parent; first sequence ids around 65535 and 0x8000. Part long: one or two masters announcing in every interval (an occasional gap or duplicate every 500-4500 intervals) over 33000-80000 announce intervals - a complete sequence-number cycle 65535->0 plus half of the next - same oracle after every BMCA; non-trivial = qualified and wrap crossed.",
             assumptions: vec!["window slack of one BMCA period (record ages advance in BMCA-period quanta)".into(), "receptions are counted generously on the necessary side (duplicates and stale ids count)".into()],
             min_nontrivial: 100,
         },
